@@ -4,7 +4,7 @@ import copy
 import random
 import signal
 
-from . import gen, obs, ops, ops_io, oracles, simfs
+from . import gen, obs, ops, ops_io, ops_nx, ops_paths, ops_stats, oracles, simfs
 from .core import Abort, Hang, Precondition, Violation, World, call, exc_class
 
 # ---------------------------------------------------------------------------- focus table
@@ -31,6 +31,17 @@ FOCUS = {
     'C18': dict(roots=[(0, 1), (1, 1)], armed=['c03', 'c05'], scope='derived', faults=['F-ORD'], hist=[],
                 derive=['parse', 'parse', 'parse', 'compact'], p_derive=[0.5, 0.7], level='fault_enumeration',
                 variants=True, steps_cap=12),
+    'C12': dict(roots=[(0, 1), (1, 1)], armed=[], faults=['F-ORD'], hist=[], small=True,
+                derive=['probe_paths', 'probe_paths', 'probe_all', 'slice'], p_derive=[0.3, 0.5]),
+    'C13': dict(roots=[(0, 1), (1, 1)], armed=[], faults=['F-ORD'], hist=[], small=True,
+                derive=['probe_paths', 'probe_paths', 'probe_all', 'slice'], p_derive=[0.3, 0.5]),
+    'C15': dict(roots=[(0, 1), (1, 1)], armed=[], faults=['F-ORD'], hist=[], small=True,
+                derive=['probe_dag', 'probe_dag', 'probe_dag', 'slice'], p_derive=[0.3, 0.5]),
+    'C17': dict(roots=[(0, 1), (0, 1), (1, 1)], armed=[], faults=['F-ORD'], hist=[], selfloops=[0.0, 0.0, 0.05],
+                derive=['probe_stats', 'probe_stats', 'probe_stats', 'slice', 'restart:snapshots'], p_derive=[0.3, 0.5]),
+    'C19': dict(roots=[(0, 1), (1, 1), (0, 1), (1, 1), (0, 0), (1, 0)], armed=['c03', 'c04', 'c05'], faults=['F-ORD', 'F-BULK'],
+                hist=['shadow'], derive=['nx:blocked', 'nx:blocked', 'nx:any', 'nx:any', 'nx:frozen', 'freeze'],
+                p_derive=[0.3, 0.5], p_node=[0.1, 0.2], level='fault_enumeration', steps_cap=24),
     'C16': dict(roots=[(0, 1), (1, 1)], armed=['c03', 'c04', 'c05', 'attrs'], scope='derived', faults=['F-ORD'],
                 hist=[], derive=['convert', 'alias'], p_derive=[0.15, 0.3], p_node=[0.1, 0.25]),
     'C07': dict(roots=[(0, 1), (1, 1), (0, 0), (1, 0)], armed=['c07'], level='fault_enumeration', variants=True,
@@ -101,6 +112,18 @@ def execute(world, op):
         out = ops.do_convert(world, rep, op)
     elif kind == 'mutate_attr':
         out = ops.do_mutate_attr(world, rep, op)
+    elif kind == 'probe_paths':
+        out = ops_paths.do_probe_paths(world, rep, op)
+    elif kind == 'probe_all':
+        out = ops_paths.do_probe_all_paths(world, rep, op)
+    elif kind == 'probe_dag':
+        out = ops_paths.do_probe_dag(world, rep, op)
+    elif kind == 'probe_stats':
+        out = ops_stats.do_probe_stats(world, rep, op)
+    elif kind == 'nx':
+        out = ops_nx.do_nx(world, rep, op)
+    elif kind == 'freeze':
+        out = ops_nx.do_freeze(world, rep, op)
     elif kind == 'restart':
         out = ops_io.do_restart(world, rep, op)
     elif kind == 'parse':
@@ -212,12 +235,24 @@ def gen_step(world, rng, cfg):
         fault = rng.choice(spec['faults'])
     op = None
     derive = spec.get('derive')
-    if derive and rng.random() < cfg.get('p_derive', 0) and rep.m.removal and (rep.m.keys() or rng.random() < 0.1):
+    if derive and rng.random() < cfg.get('p_derive', 0) and (rep.m.removal or world.focus == 'C19') and (rep.m.keys() or rng.random() < 0.1):
         d = rng.choice(derive)
         if d == 'alias':
             op = gen.gen_mutate_attr(rng, rep, cfg)
         elif d == 'compact':
             op = gen.gen_compact(rng, cfg)
+        elif d == 'probe_stats':
+            op = {'op': 'probe_stats'}
+        elif d == 'freeze':
+            if not rep.m.frozen and rng.random() < 0.3:
+                op = {'op': 'freeze'}
+        elif d.startswith('nx:'):
+            mode = d.split(':')[1]
+            if mode == 'frozen' and not rep.m.frozen:
+                mode = 'blocked'
+            op = ops_nx.gen_nx(rng, rep, cfg, mode)
+        elif d.startswith('probe_'):
+            op = gen.gen_probe(rng, rep, cfg, d)
         elif d.startswith('parse'):
             if len(world.reps) < 5:
                 op = gen.gen_parse(rng, cfg)
@@ -416,6 +451,15 @@ def run(focus, seed=None, ops_list=None, profile=None, keep_log=False):
     try:
         if ops_list is None:
             cfg = gen.swarm(rng, focus)
+            if FOCUS[focus].get('small'):
+                cfg['nodes'] = cfg['nodes'][:rng.randint(2, 5)]
+                cfg['horizon'] = rng.randint(3, 6)
+                cfg['steps'] = min(cfg['steps'], 16)
+                cfg['origin'] = rng.choice([0, 0, -7, 10 ** 9])
+            if FOCUS[focus].get('small'):
+                cfg['p_selfloop'] = rng.choice([0.0, 0.0, 0.05])
+            if 'selfloops' in FOCUS[focus]:
+                cfg['p_selfloop'] = rng.choice(FOCUS[focus]['selfloops'])
             if 'steps_cap' in FOCUS[focus]:
                 cfg['steps'] = min(cfg['steps'], FOCUS[focus]['steps_cap'])
             for knob in ('p_fault', 'p_derive', 'p_node'):
